@@ -63,7 +63,12 @@ fn apply_bulk<G: TooDeeOpsMut<u8> + CopyOps<u8>>(b: &Bulk, g: &mut G) {
 pub fn bulk(op: u8, kind: u8, pc: usize, pr: usize, sc: usize, ec: usize, must_panic: bool) {
     let cells = nd::bytes::<16>();
     let src = nd::bytes::<16>();
-    let gm = geometry(kind, pc, pr, Pick::Cols(sc, ec));
+    // an owned source is built with from_vec, whose length must not be symbolic: fixed window rows for ops 2 and 3
+    let gm = if kind == 1 && (op == 2 || op == 3) && !must_panic {
+        geometry(kind, pc, pr, Pick::Fixed((sc, 1), (ec, pr)))
+    } else {
+        geometry(kind, pc, pr, Pick::Cols(sc, ec))
+    };
     let (w, h) = gm.size;
     let mut b = Bulk { op, src, sw: w, sh: h, slen: w * h };
     if must_panic {
